@@ -80,7 +80,7 @@ func c15CallOpts(c *c15HistCall) rag.MarkdownOptions {
 type c15HTMLReader struct{ r *htmldoc.Reader }
 
 func (t *c15HTMLReader) Can(c *c15HistCall) bool { return true }
-func (t *c15HTMLReader) Close()                   { t.r.Close() }
+func (t *c15HTMLReader) Close()                  { t.r.Close() }
 func (t *c15HTMLReader) Call(c *c15HistCall) c15Rendering {
 	eo := htmldoc.ExtractOptions{NavigationExclusion: c15NavMode(c.Nav)}
 	switch c.Op {
@@ -145,7 +145,7 @@ func (t *c15Extractor) Call(c *c15HistCall) c15Rendering {
 type c15DocxReader struct{ r *docx.Reader }
 
 func (t *c15DocxReader) Can(c *c15HistCall) bool { return c.Nav == "none" }
-func (t *c15DocxReader) Close()                   { t.r.Close() }
+func (t *c15DocxReader) Close()                  { t.r.Close() }
 func (t *c15DocxReader) Call(c *c15HistCall) c15Rendering {
 	switch c.Op {
 	case "md":
@@ -166,7 +166,7 @@ func (t *c15DocxReader) Call(c *c15HistCall) c15Rendering {
 type c15OdtReader struct{ r *odt.Reader }
 
 func (t *c15OdtReader) Can(c *c15HistCall) bool { return c.Nav == "none" }
-func (t *c15OdtReader) Close()                   { t.r.Close() }
+func (t *c15OdtReader) Close()                  { t.r.Close() }
 func (t *c15OdtReader) Call(c *c15HistCall) c15Rendering {
 	switch c.Op {
 	case "md":
